@@ -19,7 +19,8 @@ RULE = ("(a) version: field boundaries, gate neighbours and seeded words (thorou
         "export: file bytes judged by the spec decoder (dimensions, axes, rate, blockshape, trace count, block count = padded "
         "voxels x bits / 8, footer array count/length/offsets, file length) and every sample + header decoded from the spec "
         "alone equals what the real reader returns; (c) gate-neighbour files laid out by the spec encoder under versions "
-        "0.1.6.dev..0.2.2 read through the real reader")
+        "0.1.6.dev..0.2.2 read through the real reader"
+        "; K also: Model/Container (disk blocks, reader footer offsets, file length) and Model/Header (make/parse of the 76 fixed header bytes) vs every real writer output")
 
 
 def ver_fields(v):
